@@ -590,6 +590,35 @@ impl Ctx {
 }
 
 /// Replays one case through a sub-check; returns the exit code.
+/// Batch mode (Miri tier of the system-level engine, and the native pre-filter of its batch):
+/// `replay_one` evaluates the case once, reports a failing clause that lists the property as
+/// `MIRI-CASE-FAIL`, and neither a clause of another property nor a listed known finding.
+pub static BATCH_MODE: AtomicBool = AtomicBool::new(false);
+
+fn batch_one<S: SubCheck>(s: &S, prop: &str, c: &S::Case, path: &str) -> i32 {
+    match s.eval(c) {
+        Verdict::Pass { .. } => 0,
+        Verdict::Fail {
+            signature,
+            clause,
+            detail,
+            props,
+        } => {
+            let known = Ctx::new(prop, "quick", 1).known;
+            if known.iter().any(|(p, sig, _)| p == prop && *sig == signature) {
+                println!("MIRI-CASE-KNOWN {} {} {}", path, s.name(), signature);
+                0
+            } else if !props.contains(&prop) {
+                println!("MIRI-CASE-FOREIGN {} {} {} props={:?}: {}", path, s.name(), clause, props, detail);
+                0
+            } else {
+                println!("MIRI-CASE-FAIL {} {} {}: {}", path, s.name(), clause, detail);
+                1
+            }
+        }
+    }
+}
+
 pub fn replay_one<S: SubCheck>(s: &S, prop: &str, case: &Value, path: &str) -> i32 {
     let c: S::Case = match serde_json::from_value(case.clone()) {
         Ok(c) => c,
@@ -599,6 +628,9 @@ pub fn replay_one<S: SubCheck>(s: &S, prop: &str, case: &Value, path: &str) -> i
         }
     };
     crate::core::IS_DRIVER.with(|d| d.set(true));
+    if BATCH_MODE.load(Ordering::SeqCst) {
+        return batch_one(s, prop, &c, path);
+    }
     // MT cases are not deterministic: re-run several times.
     let mut reps = if s.substrate().contains("MT") || s.substrate().contains("real-threads") { 300 } else { 3 };
     if let Some(r) = std::env::var("VERIF_REPLAY_REPS").ok().and_then(|x| x.parse::<usize>().ok()) {
